@@ -75,18 +75,42 @@ theorem SimCore.core_left {is : List Instruction} {lo hi : Nat} {A : Str → Boo
     SimCore is lo hi A s0 t t' s' :=
   ⟨h.cache, h.rel, h.frame.core_left he, h.mono, h.varsF⟩
 
+/-- a flow line that evaluated its condition (which may have appended to `emitted`), possibly
+    filled caches and possibly registered an end command inside `[lo, hi)` -/
+theorem SimCore.condStep {is : List Instruction} {lo hi : Nat} {A : Str → Bool} {s s' : Sdk} {t : TState}
+    {em : List (List Str)} (hc : CacheOK is s') (hr : Rel s t)
+    (h1 : s'.handles = s.handles) (h2 : s'.nextHandle = s.nextHandle) (h3 : s'.emitted = em)
+    (h4 : s'.fns = s.fns) (h5 : s'.lineCtx = s.lineCtx)
+    (h6 : ∀ l, (l < lo ∨ hi ≤ l) → s'.endTable.get (lineKey s l) = s.endTable.get (lineKey s l)) :
+    SimCore is lo hi A s t (withEm t em) s' :=
+  ⟨hc, ⟨h1.trans hr.handles, h2.trans hr.next, h3, h4.trans hr.sfns, hr.tsfns, hr.tfns, hr.hok⟩,
+    ⟨h6, h4, h5⟩, fun _ _ h => h, fun _ _ => rfl⟩
+
+theorem endT_put_ne (s : Sdk) (stop l : Nat) (name : Str) (h : l ≠ stop) :
+    (s.endTable.put (lineKey s stop) name).get (lineKey s l) = s.endTable.get (lineKey s l) := by
+  rw [KV.get_put_ne]
+  intro e
+  exact h (lineKey_inj e).symm
+
 /-- an opener: the caches were (correctly) filled and the end table got the entry of line `stop` -/
 theorem SimCore.opener {is : List Instruction} {lo hi : Nat} {A : Str → Bool} {s s' : Sdk} {t : TState}
+    {em : List (List Str)}
+    (stop : Nat) (name : Str) (hc : CacheOK is s') (hr : Rel s t)
+    (h1 : s'.handles = s.handles) (h2 : s'.nextHandle = s.nextHandle) (h3 : s'.emitted = em)
+    (h4 : s'.fns = s.fns) (h5 : s'.lineCtx = s.lineCtx)
+    (h6 : s'.endTable = s.endTable.put (lineKey s stop) name) (hlo : lo ≤ stop) (hhi : stop < hi) :
+    SimCore is lo hi A s t (withEm t em) s' :=
+  SimCore.condStep hc hr h1 h2 h3 h4 h5
+    (fun l hl => by rw [h6]; exact endT_put_ne s stop l name (by omega))
+
+/-- an opener without a condition (the `for` line) -/
+theorem SimCore.opener0 {is : List Instruction} {lo hi : Nat} {A : Str → Bool} {s s' : Sdk} {t : TState}
     (stop : Nat) (name : Str) (hc : CacheOK is s') (hr : Rel s t)
     (h1 : s'.handles = s.handles) (h2 : s'.nextHandle = s.nextHandle) (h3 : s'.emitted = s.emitted)
     (h4 : s'.fns = s.fns) (h5 : s'.lineCtx = s.lineCtx)
     (h6 : s'.endTable = s.endTable.put (lineKey s stop) name) (hlo : lo ≤ stop) (hhi : stop < hi) :
-    SimCore is lo hi A s t t s' := by
-  refine ⟨hc, hr.of_eq h1 h2 h3 h4, ⟨fun l hl => ?_, h4, h5⟩, fun _ _ h => h, fun _ _ => rfl⟩
-  rw [h6, KV.get_put_ne]
-  intro e
-  have := lineKey_inj e
-  omega
+    SimCore is lo hi A s t t s' :=
+  SimCore.opener (em := t.sdk.emitted) stop name hc hr h1 h2 (h3.trans hr.emitted) h4 h5 h6 hlo hhi
 
 /-- the outcome of simulating a piece of program on lines `[lo, hi)` -/
 def Sim (is : List Instruction) (lo hi : Nat) (A : Str → Bool) (s : Sdk) (t t' : TState) : Prop :=
@@ -201,35 +225,81 @@ theorem drop_nil_facts {α : Type} (l : List α) (j : Nat) (h : l.drop j = []) :
 /-! ### the fragment has no function definitions -/
 
 mutual
-  theorem Stmt.noFn_of_simple : ∀ s : Stmt, s.simple = true → s.noFn = true
+  theorem Stmt.noFn_of_simple2 : ∀ s : Stmt, s.simple2 = true → s.noFn = true
     | .line _, _ => rfl
     | .ifChain _ _ body elifs _ elseBody _, h => by
-      simp only [Stmt.simple, Bool.and_eq_true] at h
+      simp only [Stmt.simple2, Bool.and_eq_true] at h
       simp only [Stmt.noFn, Bool.and_eq_true]
-      exact ⟨⟨Block.noFn_of_simple body h.1.1.2, Elifs.noFn_of_simple elifs h.1.2⟩,
-        Block.noFn_of_simple elseBody h.2⟩
+      exact ⟨⟨Block.noFn_of_simple2 body h.1.1.2, Elifs.noFn_of_simple2 elifs h.1.2⟩,
+        Block.noFn_of_simple2 elseBody h.2⟩
+    | .whileLoop _ _ body _, h => by
+      simp only [Stmt.simple2, Bool.and_eq_true] at h
+      simp only [Stmt.noFn]
+      exact Block.noFn_of_simple2 body h.2
+    | .forIn _ _ _ body _, h => by
+      simp only [Stmt.simple2, Bool.and_eq_true] at h
+      simp only [Stmt.noFn]
+      exact Block.noFn_of_simple2 body h.1.2
+    | .fnDef _ _ _ _ _, h => by simp [Stmt.simple2] at h
+    | .ret _ _, h => by simp [Stmt.simple2] at h
+  theorem Block.noFn_of_simple2 : ∀ b : Block, b.simple2 = true → b.noFn = true
+    | .nil, _ => rfl
+    | .cons s rest, h => by
+      simp only [Block.simple2, Bool.and_eq_true] at h
+      simp only [Block.noFn, Bool.and_eq_true]
+      exact ⟨Stmt.noFn_of_simple2 s h.1, Block.noFn_of_simple2 rest h.2⟩
+  theorem Elifs.noFn_of_simple2 : ∀ e : Elifs, e.simple2 = true → e.noFn = true
+    | .nil, _ => rfl
+    | .cons _ _ body rest, h => by
+      simp only [Elifs.simple2, Bool.and_eq_true] at h
+      simp only [Elifs.noFn, Bool.and_eq_true]
+      exact ⟨Block.noFn_of_simple2 body h.1.2, Elifs.noFn_of_simple2 rest h.2⟩
+end
+
+/-! ### the simple fragment is part of the simple2 fragment -/
+
+theorem condSimple2_of_simple {cond : List Str} (h : condSimple cond = true) : condSimple2 cond = true := by
+  simp [condSimple2, h]
+
+mutual
+  theorem Stmt.simple2_of_simple : ∀ s : Stmt, s.simple = true → s.simple2 = true
+    | .line _, h => h
+    | .ifChain _ _ body elifs _ elseBody _, h => by
+      simp only [Stmt.simple, Bool.and_eq_true] at h
+      simp only [Stmt.simple2, Bool.and_eq_true]
+      exact ⟨⟨⟨condSimple2_of_simple h.1.1.1, Block.simple2_of_simple body h.1.1.2⟩,
+        Elifs.simple2_of_simple elifs h.1.2⟩, Block.simple2_of_simple elseBody h.2⟩
     | .whileLoop _ _ body _, h => by
       simp only [Stmt.simple, Bool.and_eq_true] at h
-      simp only [Stmt.noFn]
-      exact Block.noFn_of_simple body h.2
+      simp only [Stmt.simple2, Bool.and_eq_true]
+      exact ⟨condSimple2_of_simple h.1, Block.simple2_of_simple body h.2⟩
     | .forIn _ _ _ body _, h => by
       simp only [Stmt.simple, Bool.and_eq_true] at h
-      simp only [Stmt.noFn]
-      exact Block.noFn_of_simple body h.1.2
+      simp only [Stmt.simple2, Bool.and_eq_true]
+      exact ⟨⟨h.1.1, Block.simple2_of_simple body h.1.2⟩, h.2⟩
     | .fnDef _ _ _ _ _, h => by simp [Stmt.simple] at h
     | .ret _ _, h => by simp [Stmt.simple] at h
-  theorem Block.noFn_of_simple : ∀ b : Block, b.simple = true → b.noFn = true
+  theorem Block.simple2_of_simple : ∀ b : Block, b.simple = true → b.simple2 = true
     | .nil, _ => rfl
     | .cons s rest, h => by
       simp only [Block.simple, Bool.and_eq_true] at h
-      simp only [Block.noFn, Bool.and_eq_true]
-      exact ⟨Stmt.noFn_of_simple s h.1, Block.noFn_of_simple rest h.2⟩
-  theorem Elifs.noFn_of_simple : ∀ e : Elifs, e.simple = true → e.noFn = true
+      simp only [Block.simple2, Bool.and_eq_true]
+      exact ⟨Stmt.simple2_of_simple s h.1, Block.simple2_of_simple rest h.2⟩
+  theorem Elifs.simple2_of_simple : ∀ e : Elifs, e.simple = true → e.simple2 = true
     | .nil, _ => rfl
     | .cons _ _ body rest, h => by
       simp only [Elifs.simple, Bool.and_eq_true] at h
-      simp only [Elifs.noFn, Bool.and_eq_true]
-      exact ⟨Block.noFn_of_simple body h.1.2, Elifs.noFn_of_simple rest h.2⟩
+      simp only [Elifs.simple2, Bool.and_eq_true]
+      exact ⟨⟨condSimple2_of_simple h.1.1, Block.simple2_of_simple body h.1.2⟩,
+        Elifs.simple2_of_simple rest h.2⟩
 end
+
+/-- a value condition asks nothing of its bound words -/
+theorem condArgsSafe_of_simple {cond : List Str} (vars : Vars) (h : condSimple cond = true) :
+    condArgsSafe (bind vars (some cond)) = true := by
+  obtain ⟨w, rest, hb, hn⟩ := condSimple_bind vars h
+  rw [hb]
+  have hnone : resolveCmd {} w = none := Option.isNone_iff_eq_none.mp hn
+  simp [condArgsSafe, isPureCondCmd, isNotCmd, hnone]
 
 end Duck
